@@ -329,7 +329,9 @@ func (s *psim) Next(rng *simcore.RNG) simcore.Op {
 			continue
 		}
 		nUser++
-		users = append(users, sr.idx)
+		if !sr.poison { // a bundle leaves only as a whole (unsuball)
+			users = append(users, sr.idx)
+		}
 		if sr.capacity > 0 && sr.speed > 0 {
 			for k := 0; k < sr.speed; k++ {
 				readable = append(readable, sr.idx)
@@ -382,9 +384,10 @@ func (s *psim) Next(rng *simcore.RNG) simcore.Op {
 			always = "tm.event"
 		}
 		b := genPoisonBase(rng, mix, always)
-		return simcore.Op{"a": "psub", "c": nClients + s.pbundles, "base": b.op(), "m": 6, "cap": []int{1, 2, 50}[rng.Intn(3)]}
+		// large capacity: the members of the bundle are never read and must not drop out for capacity
+		return simcore.Op{"a": "psub", "c": nClients + s.pbundles, "base": b.op(), "m": 6, "cap": canaryCap}
 	case 2:
-		if nUser == 0 {
+		if len(users) == 0 {
 			return simcore.Op{"a": "unsuball", "c": rng.Intn(nClients)}
 		}
 		return simcore.Op{"a": "unsub", "s": users[rng.Intn(len(users))]}
